@@ -356,6 +356,16 @@ def o_bloom(case):
                 sp = _Spendable(h, op[2])
             item = h + op[2].to_bytes(4, "little")       # COutPoint serialisation: hash || uint32 LE index
             f.add_spendable(sp)
+        elif kind == "retune":
+            # a long-lived filter is re-randomised: its public parameters are assigned, the bitmap is cleared, and the
+            # elements are added again; what the filter then holds and announces follows the parameters as they are now
+            tweak, nfuncs = op[1], op[2]
+            f.tweak, f.hash_function_count = tweak, nfuncs
+            f.filter_bytes = bytearray(size)
+            ref = bytearray(size)
+            added = []
+            labels.add("op=retune")
+            continue
         else:
             raise ValueError(kind)
         labels.add("op=" + kind)
@@ -396,6 +406,7 @@ def s_bloom():
         st.tuples(hx, st.one_of(st.integers(0, 3), st.integers(0, M32)), st.booleans()).map(lambda t: ["spendable", t[0], t[1], t[2]]),
         st.tuples(st.sampled_from([0, 0, 0, 1, 2, 5]), st.integers(0, 8), st.integers(0, M32)).map(lambda t: ["collide", t[0], t[1], t[2]]),
         st.tuples(st.sampled_from([0, 0, 1, 2, 5, 11]), st.integers(0, 9)).map(lambda t: ["hit", t[0], t[1]]),
+        st.tuples(st.one_of(st.integers(0, M32), st.sampled_from([0, 1, M32 + 1, 2**64 - 1])), st.integers(0, 12)).map(lambda t: ["retune", t[0], t[1]]),
     )
     return st.fixed_dictionaries({"size": size, "nfuncs": nfuncs, "tweak": tweak, "ops": st.lists(op, max_size=6)})
 
